@@ -8,7 +8,7 @@
 From Coq Require Import String.
 From Coq Require Import List ZArith Bool.
 From BiomV Require Import Base.Tree Base.Matrix Model.Table Model.Tsv Model.Metadata Proofs.TsvProofs Proofs.MetadataProofs
-  Gen.MetaPrelude Gen.MetadataGen Proofs.GenBridgeMetadataProofs.
+  Gen.MetaPrelude Gen.MetadataGen Proofs.GenBridgeMetadataProofs Gen.MapPrelude Gen.MapFileGen Proofs.GenBridgeMapFileProofs.
 Import ListNotations.
 Open Scope Z_scope.
 
@@ -173,3 +173,29 @@ Example mlen_ok_example :
   mlen_ok (mkM [txt "o1"] [txt "s1"; txt "s2"] [[1; 2]] (Some [[(txt "k", tNone)]]) (Some [[]; [(txt "k", tNone)]])).
 Proof. intros [|] l E; inversion E; reflexivity. Qed.
 Print Assumptions mlen_ok_example.
+
+(* ---- the mapping-file reader is the source (DESIGN 3.1 T12): Gen/MapFileGen.v is regenerated from
+   MetadataMap.from_file (biom/parse.py) by tools/py2v (mapping-file mode) on every check; the lines
+   are a list of texts, process_fns is a function from column names to optional conversions
+   (pf_of conv o: the column kinds of colopts over the int()/float() oracle conv). ---- *)
+(* the four strip_f variants selected by strip_quotes / suppress_stripping *)
+Theorem strip_f_is_source : forall sq ss x, strip_f_gen sq ss x = strip_f sq ss x.
+Proof. exact strip_f_bridge. Qed.
+Print Assumptions strip_f_is_source.
+(* one turn of the loop over the lines: blank / comment / header / data line with padding; the
+   generated state carries `comments` as well, which nothing reads *)
+Theorem from_file_line_is_source : forall sq ss st line,
+  proj3 (from_file_line_gen sq ss st line) = map_step sq ss (proj3 st) line.
+Proof. exact line_bridge. Qed.
+Print Assumptions from_file_line_is_source.
+(* current_d[k] = process_fns[k](v) / except KeyError: current_d[k] = v over zip(header[1:], vals[1:]) *)
+Theorem from_file_cols_is_source : forall conv o cols vals acc,
+  fold_left (from_file_col_gen (pf_of conv o)) (combine cols vals) acc = row_dict conv o cols vals acc.
+Proof. exact cols_bridge. Qed.
+Print Assumptions from_file_cols_is_source.
+(* the whole method: the three refusals (no header, no data, first column not unique) and the dict of
+   dicts keyed by the first column, for every list of lines, flags, header override and column options *)
+Theorem from_file_is_source : forall conv sq ss header0 o lines,
+  from_file_gen lines sq ss header0 (pf_of conv o) = parse_mapping conv sq ss header0 o lines.
+Proof. exact from_file_bridge. Qed.
+Print Assumptions from_file_is_source.
